@@ -539,6 +539,39 @@ def main(tier):
                                  dict(rep, exit_with=cw[0], exit_without=co[0], messages_with=lw[:40], messages_without=lo[:40]), independent=True)
                 if not any(n in cw[1] + cw[2] for n in broken):
                     ck.violation("`pyscn check` does not report any of the %d unparsable files of the project" % nb, dict(rep, stderr=cw[2][-800:]), independent=True)
+    # ----- the same for the module graph: two valid modules that import each other and a third one; k broken files next to them.
+    # The broken files are counted as modules of the project (deps_total_modules, not compared: it describes them), which dilutes
+    # the share of modules in cycles and moves the main sequence deviation of the valid modules: finding F83
+    stats["project_deps_runs"] = 0
+    cyc = {"alpha.py": "import beta\n\n\ndef fa():\n    return beta.fb()\n", "beta.py": "import alpha\n\n\ndef fb():\n    return alpha.fa()\n",
+           "gamma.py": "def fc():\n    return 1\n"}
+    deps_args = ["analyze", "--json", "--no-open", "--select", "deps", "."]
+    d0 = c06proj.write_project(os.path.join(root, "projdeps_without"), cyc, {})
+    r0 = run_cli(deps_args, d0)
+    s0 = (latest_json(d0) or {}).get("summary") or {}
+    check_run("module graph project, valid files only", r0[0], r0[1], r0[2], r0[3], 2000, {"kind": "project-deps", "files": cyc})
+    for k in (1, 2, 7):
+        broken = {"zz_bad_%d.py" % i: pool[i % len(pool)][1] for i in range(k)}
+        dk = c06proj.write_project(os.path.join(root, "projdeps_with_%d" % k), cyc, broken)
+        rk = run_cli(deps_args, dk)
+        sk = (latest_json(dk) or {}).get("summary") or {}
+        stats["project_deps_runs"] += 1
+        rep = {"kind": "project-deps", "files": cyc, "broken": {n: c[:200].hex() for n, c in broken.items()}, "args": deps_args}
+        if not check_run("module graph project with %d broken files" % k, rk[0], rk[1], rk[2], rk[3], 4000, rep) or not s0 or not sk:
+            continue
+        diff = [(f_, s0.get(f_), sk.get(f_)) for f_ in ("deps_modules_in_cycles", "deps_max_depth", "deps_main_sequence_deviation", "dependency_score",
+                                                        "architecture_score", "health_score", "grade", "total_files", "analyzed_files") if s0.get(f_) != sk.get(f_)]
+        if not diff:
+            continue
+        diluted = all(f_ in ("deps_main_sequence_deviation", "dependency_score", "health_score", "grade") for f_, _, _ in diff) \
+            and sk.get("deps_total_modules") == s0.get("deps_total_modules", 0) + k
+        kf = ck.match_known({"class": "broken-file-counted-as-module"}) if diluted else None
+        if kf is not None:
+            ck.known_finding(kf)
+            stats.setdefault("project_deps_dilution", {})[str(k)] = ["%s %s -> %s" % d for d in diff]
+        else:
+            ck.violation("%d broken file(s) next to 3 valid modules (two of them import each other) change the dependency figures of the valid modules: %s"
+                         % (k, ", ".join("%s %s -> %s" % d for d in diff)), dict(rep, summary_with=sk, summary_without=s0), independent=True)
     stats["project_stage_seconds"] = round(time.time() - t_proj, 1)
     # ----- valid Python in unusual surface form: continuations after every keyword/operator kind, newlines and comments inside
     # brackets (same AST under CPython): no crash, and the per-function results are those of the plain file
